@@ -2,7 +2,7 @@
    Statements only; each is closed by [exact] of a lemma proved in Spec/SpecProofs.v.
    Go side: Core/Arith.v (L0 extractors), Core/Reader.v (readPtr and the accessors, all repair
    switches on = the code now in ../repo); specification side: Spec/Spec.v. *)
-From CV Require Import Core.Arith Core.Reader Core.ReadOps Spec.Spec Spec.SpecProofs Spec.SpecExamples.
+From CV Require Import Core.Arith Core.Reader Core.ReadOps Spec.Spec Spec.SpecProofs Spec.SpecExamples Spec.WalkProofs.
 Open Scope Z_scope.
 
 (* every 64-bit pointer word: each field extractor of rawpointer.go is the spec's bit field *)
@@ -166,3 +166,27 @@ Proof.
   split; [exact (proj1 ex_double_far)|]. split; [exact (proj1 ex_spec_tree)|]. exact ex_walk_tree.
 Qed.
 Print Assumptions C03_example.
+
+(* [T2] whole trees: for every message, caps and fuel, when limits suffice (depth limit above
+   the fuel, budget at least the specification's traversal cost), the generic walker over the
+   Go-faithful accessors returns exactly spec_decode's tree and consumes exactly its cost *)
+Theorem C03_walk_eq_spec : forall (c : config) (m : list (list Z)) (dcap pcap : Z),
+  cfg_strict c = true -> bytes_ok m -> segs_small m ->
+  (forall sid wa, dfar_zero_pad m sid wa = false) ->
+  (forall sid wa t, spec_resolve false m sid wa = Some t -> list_repr t) ->
+  forall fuel rl sid s wa depth,
+  seg_at m sid = Some s -> in_words s wa 1 = true ->
+  Z.of_nat fuel < depth < 18446744073709551616 -> 0 <= rl ->
+  spec_cost false fuel dcap pcap m sid wa <= rl ->
+  (let '(r, rl1) := readPtr true m rl sid s (8 * wa) depth in
+   walk c (mkFix true true true) m dcap pcap fuel rl1 r)
+  = (spec_decode false fuel dcap pcap m sid wa, rl - spec_cost false fuel dcap pcap m sid wa).
+Proof. exact walk_eq_spec. Qed.
+Print Assumptions C03_walk_eq_spec.
+
+Theorem C03_walk_eq_spec_hyps_satisfiable :
+  bytes_ok zero_msg /\ segs_small zero_msg /\
+  (forall sid wa, dfar_zero_pad zero_msg sid wa = false) /\
+  (forall sid wa t, spec_resolve false zero_msg sid wa = Some t -> list_repr t).
+Proof. exact walk_eq_spec_hyps_satisfiable. Qed.
+Print Assumptions C03_walk_eq_spec_hyps_satisfiable.
